@@ -278,7 +278,14 @@ def judge_c18(case):
                 reach.probe("strict-with-solver-cache-present")
             continue
         if "exc" in obs:
-            continue  # no solution returned: nothing was relaxed
+            # no solution returned, so nothing was relaxed silently -- but the property also says the
+            # call *returns the solution of the relaxation*: a solve that raises although its
+            # all-continuous twin (same call, pristine process) returns is a finding
+            if not rec.get("planned"):
+                tobs = (refs.get(rec["ref_relaxed"]) or {}).get("obs") or {}
+                if "exc" not in tobs:
+                    findings.append(_finding("C18", "relaxed-solve-raised", rec, f"{obs['exc']} although the all-continuous twin returned status {tobs.get('status')}"))
+            continue
         ws = _relax_warnings(rec)
         if not ws:
             findings.append(_finding("C18", "relaxed-without-warning", rec, f"status {obs.get('status')}, non-continuous {D}, no relaxation warning"))
